@@ -421,8 +421,9 @@ def _e_coordinates(a, r):
     return And(*cs)
 
 
-def _kernel_clause(label, kernels):
-    """the kernel contract's clause `label` for every non-angular variable with the coordinate, between the caller's data and the result"""
+def _kernel_clause(label, kernels, only=None):
+    """the kernel contract's clause `label` for every non-angular variable with the coordinate (`only`: for that variable), between the
+    caller's data and the result"""
     def f(a, r):
         ds, out = DSView(a.data_set), DSView(r)
         name = a.coordinate_name
@@ -430,7 +431,7 @@ def _kernel_clause(label, kernels):
         pcoord = expected_periodic_coordinates(a)
         cs = []
         for v in _with_coordinate(a):
-            if v in pdata:
+            if v in pdata or (only is not None and v != only):
                 continue
             s = NS({"xp": ds.var_coord(v, name), "x": _targets(a), "y": ds.cells(v), "layout": K.layout_of(ds.dims(v), name),
                     "nearest": bool(a.nearest_neighbour), "kind": "plain" if name not in pcoord else "periodic"})
@@ -518,7 +519,11 @@ def axis_contract(label, cname, kernels, instances, requires, note, samples=None
            ("result_holds_the_interpolator_results", _e_result_is_callee_result),
            ("coordinate_holds_the_targets", _e_coordinates),
            ("angular_variables.shape", _e_angular_shape)]
-    ens += [("kernel." + l, _kernel_clause(l, kernels)) for l in kernel_labels]
+    names = []
+    for inst in instances:
+        names += [v for v, dims in inst[4] if "@" in dims and v not in names]
+    # one obligation per kernel clause and variable (for angular variables of an instance the clause is vacuous: see angular_variables.shape)
+    ens += [(f"kernel.{l}[{v}]", _kernel_clause(l, kernels, v)) for l in kernel_labels for v in names]
     return Contract(DS + "interpolate_dataset_along_axis", label=label,
                     instances=[(lab, _p_axis(cname, nearest, pdata, pcoords, variables)) for lab, nearest, pdata, pcoords, variables in instances],
                     requires=requires, ensures=ens,
